@@ -28,6 +28,9 @@ static long g_mainTicks = 0, g_allTicks = 0;
 static long long g_nodeCostNs = 1000;
 static int g_tickYield = 0;
 static int g_helperTickYield = 64;
+static long long g_workCostNs[3] = {0, 0, 0}; // virtual cost per position of the on-demand tablebase generator's phases
+static bool g_workYield = false;
+static long g_workTicks = 0;
 static long g_tickCnt[512];
 static double g_collisionP = 0;
 static vf::Rng g_faultRng(1, 7);
@@ -79,6 +82,8 @@ struct OutBuf : std::streambuf {
                 l.mainTicks = g_mainTicks;
                 l.allTicks = g_allTicks;
                 l.steps = (long)vsim::stats().steps;
+                l.engClockReads = (long)vsim::stats().clockReads[vsim::R_ENGINE];
+                l.workTicks = g_workTicks;
                 if (vf::startsWith(cur, "bestmove")) bestmoves++;
                 else if (cur == "readyok") readyoks++;
                 else if (vf::startsWith(cur, "info depth") && cur.find(" score ") != std::string::npos) infosSinceGo++;
@@ -290,6 +295,11 @@ void genSimKnobs(vf::Rng& r, vf::Scenario& sc, bool faults) {
     static const int hty[] = {1, 4, 16, 64, 64};
     bool prio = sc.knobInt("strategy", 0) == vsim::ST_PCT || sc.knobInt("strategy", 0) == vsim::ST_RTB;
     sc.set("helper_tick_yield", hty[r.below(prio ? 3 : 5)]);
+    // on-demand tablebase generation: about 60 ns per position in the classification phases and 6 ns per position and
+    // pass in the iteration phase on the reference machine; varied by a factor of 4 either way
+    sc.set("work_cost01_ns", r.logRange(15, 240));
+    sc.set("work_cost2_ns", r.logRange(2, 24));
+    sc.set("work_yield", 1);
     if (faults) {
         if (r.chance(0.5)) sc.setD("spurious_p", r.chance(0.5) ? 0.002 : 0.02);
         if (r.chance(0.3)) { sc.setD("late_p", 0.2); sc.set("late_max_ns", r.logRange(1000, 50000000)); }
@@ -398,6 +408,10 @@ void runSession(const vf::Scenario& sc, History& h, vf::Result& res) {
     g_nodeCostNs = sc.knobInt("node_cost_ns", 1000);
     g_tickYield = (int)sc.knobInt("tick_yield", 0);
     g_helperTickYield = (int)sc.knobInt("helper_tick_yield", 64);
+    g_workCostNs[0] = g_workCostNs[1] = sc.knobInt("work_cost01_ns", 0);
+    g_workCostNs[2] = sc.knobInt("work_cost2_ns", 0);
+    g_workYield = sc.knobInt("work_yield", 0) != 0;
+    g_workTicks = 0;
     g_collisionP = sc.knobDbl("collision_p", 0);
     g_ttYield = sc.knobInt("tt_yield", 0) != 0;
     g_ttYieldEvery = (int)std::max(1LL, sc.knobInt("tt_yield", 1));
@@ -442,6 +456,7 @@ void runSession(const vf::Scenario& sc, History& h, vf::Result& res) {
     res.counters["sent_lines"] = (long long)h.sent.size();
     res.counters["engine_ticks"] = g_allTicks;
     res.counters["helper_ticks"] = h.helperTicks;
+    res.counters["work_ticks"] = (long long)h.workTickTimes.size();
     res.counters["fault_tt_collision"] = h.collisionsInjected;
     res.counters["fault_alloc_failure"] = h.allocFailures;
     res.counters["tt_points"] = h.ttPoints;
@@ -460,6 +475,7 @@ extern "C" {
 void verif_node_tick(int threadNo, int site) {
     if (!vsim::active() || !H) return;
     int me = vsim::self();
+    vsim_progress++;
     if (g_allTicks > g_maxTicks || H->helperTicks > 15 * g_maxTicks) // helpers of a starved engine thread may legitimately do far more work
         vsim::fatalExternal("budget", "node budget exhausted: engine ticks " + std::to_string(g_allTicks) + " helper ticks " + std::to_string(H->helperTicks));
     if (vsim::role(me) == vsim::R_ENGINE) {
@@ -482,6 +498,18 @@ void verif_node_tick(int threadNo, int site) {
     }
 }
 
+void verif_work_tick(int phase, unsigned long long units) {
+    vsim_progress++;
+    if (!vsim::active() || !H) return;
+    if (vsim::role(vsim::self()) != vsim::R_ENGINE) return;
+    long long c = g_workCostNs[phase < 0 || phase > 2 ? 2 : phase] * (long long)units;
+    if (c > 0) vsim::advance(c);
+    g_workTicks++;
+    H->workTickTimes.push_back(vsim::now());
+    if (c > H->maxWorkTickNs) H->maxWorkTickNs = c;
+    if (g_workYield) vsim::yield(vsim::S_TICK);
+}
+
 void verif_time_limit(long long minT, long long maxT, int early, long long start) {
     if (!vsim::active() || !H) return;
     LimitEv e;
@@ -494,6 +522,8 @@ void verif_time_limit(long long minT, long long maxT, int early, long long start
     e.tid = vsim::self();
     e.mainTicks = g_mainTicks;
     e.allTicks = g_allTicks;
+    e.engClockReads = (long)vsim::stats().clockReads[vsim::R_ENGINE];
+    e.workTicks = g_workTicks;
     H->limits.push_back(e);
 }
 
